@@ -119,6 +119,18 @@ package asm
 //@ # cloc(x, vd): x is a value-producing local (implements local, type not void)
 //@ spec isloc(x value.Value) bool = typeis(x, "local")
 //@ macro cloc(x value.Value, vd types.Type) bool = isloc(x) && !teq(vtype(x), vd)
+//@ # Ident() of a named local is the token enc.LocalName prints for its name (field-level contract of
+//@ # (LocalIdent).Ident in package ir; every implementer of local gets the method by promotion: static ident-impls)
+//@ func iface local.Ident
+//@   ensures !ir.nvun(self) ==> len(result) >= 2 && result[0] == '%' && enc.lexName(result[1:len(result)], vname(self))
+//@ # localIdentOfValue: the index key of a value-producing instruction or terminator is its ID when unnamed and
+//@ # otherwise its name -- the name itself, decoded from the identifier, not the display form Name() returns
+//@ func localIdentOfValue
+//@   props C04 C05 C08 C11
+//@   requires v != nil
+//@   assigns nothing
+//@   instantiate unquote.inverse(vname(v))
+//@   ensures result == lident(v)
 //@ func iface local.ID
 //@   ensures result == ir.nvid(self)
 //@ func iface local.IsUnnamed
@@ -309,6 +321,8 @@ package asm
 //@   assigns gen.old.globalOrder, gen.old.useListOrders, gen.old.useListOrderBBs, gen.m.ModuleAsms, mapof(gen.old.globals), mapof(gen.old.typeDefs), mapof(gen.old.comdatDefs), mapof(gen.old.attrGroupDefs), mapof(gen.old.namedMetadataDefs), mapof(gen.old.metadataDefs)
 //@   # C08/C04: on success every global entity is indexed under its name, or -- unnamed -- under its rank among the unnamed global entities
 //@   ensures result == nil ==> forall(i, 0, len(old.TopLevelEntities()), gIs(old, i) ==> mapdom(gen.old.globals, gId(old, i)) && gen.old.globals[gId(old, i)] == tle(old, i))
+//@   # C05/C08: on success every unnamed global entity is written with its rank (so a repeated or out-of-sequence @N is an error)
+//@   ensures result == nil ==> forall(i, 0, len(old.TopLevelEntities()), gUnn(old, i) ==> gName(old, i).GlobalID == cntU(old, i))
 //@   # C05: on success no two global entities carry the same identifier
 //@   ensures result == nil ==> forall(i int, j int, 0 <= i && i < j && j < len(old.TopLevelEntities()) && gIs(old, i) && gIs(old, j) ==> keyof(gen.old.globals, gId(old, i)) != keyof(gen.old.globals, gId(old, j)), pattern(gId(old, i), gId(old, j)))
 //@   # C05: on success no two comdat definitions share a name and no two metadata definitions share an ID
@@ -320,6 +334,7 @@ package asm
 //@   ensures result == nil ==> len(gen.old.globalOrder) == cntE(old, len(old.TopLevelEntities())) && forall(i, 0, len(old.TopLevelEntities()), gIs(old, i) ==> gen.old.globalOrder[cntE(old, i)] == gId(old, i))
 //@   loop 0: invariant 0 <= range_i && range_i <= len(old.TopLevelEntities()) && id == cntU(old, range_i)
 //@   loop 0: invariant forall(i, 0, range_i, gIs(old, i) ==> mapdom(gen.old.globals, gId(old, i)) && gen.old.globals[gId(old, i)] == tle(old, i))
+//@   loop 0: invariant forall(i, 0, range_i, gUnn(old, i) ==> gName(old, i).GlobalID == cntU(old, i))
 //@   loop 0: invariant forall(c int, mapdomk(gen.old.globals, c) ==> exists(i, 0, range_i, gIs(old, i) && keyof(gen.old.globals, gId(old, i)) == c))
 //@   loop 0: invariant forall(i int, j int, 0 <= i && i < j && j < range_i && gIs(old, i) && gIs(old, j) ==> keyof(gen.old.globals, gId(old, i)) != keyof(gen.old.globals, gId(old, j)), pattern(gId(old, i), gId(old, j)))
 //@   loop 0: invariant forall(c int, mapdomk(gen.old.typeDefs, c) ==> mapvalk(gen.old.typeDefs, c) != nil)
@@ -445,8 +460,21 @@ package asm
 //@ func (*funcGen).irIncoming
 //@   props C04 C05
 //@   assigns anything
+//@   keeps funcGen.locals, mapof(funcGen.locals)
 //@   requires fgen != nil && fgen.gen != nil && fgen.f != nil && fgen.f.GlobalID >= 0
+//@   ensures result1 == nil && typeis(oldX, "*ast.LocalIdent") && cast(oldX, "*ast.LocalIdent") != nil ==> result0.X == old(fgen.locals[localIdent(deref(cast(oldX, "*ast.LocalIdent")))])
+//@   ensures typeis(oldX, "*ast.LocalIdent") && cast(oldX, "*ast.LocalIdent") != nil && !old(mapdom(fgen.locals, localIdent(deref(cast(oldX, "*ast.LocalIdent"))))) ==> result1 != nil
+//@   ensures !old(mapdom(fgen.locals, localIdent(oldPred))) ==> result1 != nil
 //@   ensures result1 == nil ==> result0 != nil && mapdom(fgen.locals, localIdent(oldPred)) && boxed(cast(result0.Pred, "*ir.Block")) == fgen.locals[localIdent(oldPred)] && typeis(result0.Pred, "*ir.Block")
+//@ # a switch case branches to the block indexed under the written label
+//@ func (*funcGen).irCase
+//@   props C04 C05
+//@   partial
+//@   assigns anything
+//@   keeps funcGen.locals, mapof(funcGen.locals)
+//@   requires fgen != nil && fgen.gen != nil
+//@   ensures result1 == nil ==> result0 != nil && typeis(result0.Target, "*ir.Block") && boxed(cast(result0.Target, "*ir.Block")) == old(fgen.locals[localIdent(n.Target().Name())])
+//@   ensures !old(mapdom(fgen.locals, localIdent(n.Target().Name()))) ==> result1 != nil
 //@ # dso_local_equivalent / no_cfi: the function operand is the module-level object indexed under the written name
 //@ func (*generator).irDSOLocalEquivalentConst
 //@   props C04 C05
@@ -492,6 +520,8 @@ package asm
 //@   requires forall(c int, mapdomk(gen.new.globals, c) && typeis(mapvalk(gen.new.globals, c), "*ir.Func") ==> cast(mapvalk(gen.new.globals, c), "*ir.Func") != nil && cast(mapvalk(gen.new.globals, c), "*ir.Func").GlobalID >= 0 && forall(k, 0, len(cast(mapvalk(gen.new.globals, c), "*ir.Func").Blocks), cast(mapvalk(gen.new.globals, c), "*ir.Func").Blocks[k] != nil))
 //@   ensures !mapdom(gen.new.globals, globalIdent(old.Func())) ==> result1 != nil && result0 == nil
 //@   ensures result1 == nil ==> result0 != nil && mapdom(gen.new.globals, globalIdent(old.Func())) && boxed(result0.Func) == gen.new.globals[globalIdent(old.Func())] && exists(k, 0, len(result0.Func.Blocks), result0.Block == result0.Func.Blocks[k] && result0.Func.Blocks[k].LocalIdent == localIdent(old.Block()))
+
+
 
 
 
@@ -1014,6 +1044,24 @@ package asm
 //@   ensures result == nil && typeis(old.Y(), "*ast.GlobalIdent") && cast(old.Y(), "*ast.GlobalIdent") != nil ==> cast(new, "*ir.InstFCmp").Y == old(fgen.gen.new.globals[globalIdent(deref(cast(old.Y(), "*ast.GlobalIdent")))])
 //@   ensures typeis(old.Y(), "*ast.LocalIdent") && cast(old.Y(), "*ast.LocalIdent") != nil && !old(mapdom(fgen.locals, localIdent(deref(cast(old.Y(), "*ast.LocalIdent"))))) ==> result != nil
 //@   ensures typeis(old.Y(), "*ast.GlobalIdent") && cast(old.Y(), "*ast.GlobalIdent") != nil && !old(mapdom(fgen.gen.new.globals, globalIdent(deref(cast(old.Y(), "*ast.GlobalIdent"))))) ==> result != nil
+//@ func (*funcGen).irPhiInst
+//@   props C04 C05
+//@   partial
+//@   requires fgen != nil && fgen.gen != nil && fgen.f != nil && fgen.f.GlobalID >= 0 && old != nil && typeis(new, "*ir.InstPhi") && cast(new, "*ir.InstPhi") != nil
+//@   assigns anything
+//@   keeps funcGen.locals, mapof(funcGen.locals), funcGen.gen, funcGen.f, generator.new, newIndex.globals, mapof(newIndex.globals), ir.GlobalIdent.GlobalID
+//@   # every incoming pair names the block indexed under the written predecessor; an incoming value written as
+//@   # %name / @name is the indexed object (irIncoming); a name missing from the index is an error
+//@   requires len(cast(new, "*ir.InstPhi").Incs) == 0
+//@   keeps elems(ir.InstPhi.Incs), ir.Incoming.X, ir.Incoming.Pred, ir.InstPhi.Incs
+//@   ensures result == nil ==> len(cast(new, "*ir.InstPhi").Incs) == len(old.Incs()) && forall(k, 0, len(old.Incs()), cast(new, "*ir.InstPhi").Incs[k] != nil && old(mapdom(fgen.locals, localIdent(old.Incs()[k].Pred()))) && typeis(cast(new, "*ir.InstPhi").Incs[k].Pred, "*ir.Block") && boxed(cast(cast(new, "*ir.InstPhi").Incs[k].Pred, "*ir.Block")) == old(fgen.locals[localIdent(old.Incs()[k].Pred())]))
+//@   ensures result == nil ==> forall(k, 0, len(old.Incs()), typeis(old.Incs()[k].X(), "*ast.LocalIdent") && cast(old.Incs()[k].X(), "*ast.LocalIdent") != nil ==> cast(new, "*ir.InstPhi").Incs[k].X == old(fgen.locals[localIdent(deref(cast(old.Incs()[k].X(), "*ast.LocalIdent")))]))
+//@   loop 0: invariant 0 <= range_i && range_i <= len(old.Incs()) && len(inst.Incs) == len(old.Incs())
+//@   loop 0: invariant forall(k, 0, range_i, inst.Incs[k] != nil)
+//@   loop 0: invariant forall(k, 0, range_i, old(mapdom(fgen.locals, localIdent(old.Incs()[k].Pred()))))
+//@   loop 0: invariant forall(k, 0, range_i, typeis(inst.Incs[k].Pred, "*ir.Block"))
+//@   loop 0: invariant forall(k, 0, range_i, boxed(cast(inst.Incs[k].Pred, "*ir.Block")) == old(fgen.locals[localIdent(old.Incs()[k].Pred())]))
+//@   loop 0: invariant forall(k, 0, range_i, typeis(old.Incs()[k].X(), "*ast.LocalIdent") && cast(old.Incs()[k].X(), "*ast.LocalIdent") != nil ==> inst.Incs[k].X == old(fgen.locals[localIdent(deref(cast(old.Incs()[k].X(), "*ast.LocalIdent")))]))
 //@ func (*funcGen).irSelectInst
 //@   props C04 C05
 //@   partial
@@ -1171,7 +1219,15 @@ package asm
 //@   ensures typeis(old.X().Val(), "*ast.GlobalIdent") && cast(old.X().Val(), "*ast.GlobalIdent") != nil && !old(mapdom(fgen.gen.new.globals, globalIdent(deref(cast(old.X().Val(), "*ast.GlobalIdent"))))) ==> result != nil
 //@   ensures result == nil ==> boxed(cast(new, "*ir.TermSwitch").TargetDefault) == old(fgen.locals[localIdent(old.Default().Name())])
 //@   ensures !old(mapdom(fgen.locals, localIdent(old.Default().Name()))) ==> result != nil
-//@   loop 0: invariant true
+//@   # every case branches to the block indexed under its written label; a label missing from the index is an error
+//@   requires len(cast(new, "*ir.TermSwitch").Cases) == 0
+//@   keeps elems(ir.TermSwitch.Cases), ir.Case.Target, ir.TermSwitch.Cases
+//@   ensures result == nil ==> len(cast(new, "*ir.TermSwitch").Cases) == len(old.Cases()) && forall(k, 0, len(old.Cases()), cast(new, "*ir.TermSwitch").Cases[k] != nil && old(mapdom(fgen.locals, localIdent(old.Cases()[k].Target().Name()))) && typeis(cast(new, "*ir.TermSwitch").Cases[k].Target, "*ir.Block") && boxed(cast(cast(new, "*ir.TermSwitch").Cases[k].Target, "*ir.Block")) == old(fgen.locals[localIdent(old.Cases()[k].Target().Name())]))
+//@   loop 0: invariant 0 <= range_i && range_i <= len(old.Cases()) && len(term.Cases) == len(old.Cases())
+//@   loop 0: invariant forall(k, 0, range_i, term.Cases[k] != nil)
+//@   loop 0: invariant forall(k, 0, range_i, old(mapdom(fgen.locals, localIdent(old.Cases()[k].Target().Name()))))
+//@   loop 0: invariant forall(k, 0, range_i, typeis(term.Cases[k].Target, "*ir.Block"))
+//@   loop 0: invariant forall(k, 0, range_i, boxed(cast(term.Cases[k].Target, "*ir.Block")) == old(fgen.locals[localIdent(old.Cases()[k].Target().Name())]))
 //@ func (*funcGen).irIndirectBrTerm
 //@   props C04 C05
 //@   partial
@@ -1240,8 +1296,8 @@ package asm
 //@   keeps ir.TermCatchRet.Target, funcGen.locals, mapof(funcGen.locals), funcGen.gen, funcGen.f, generator.new, newIndex.globals, mapof(newIndex.globals), ir.GlobalIdent.GlobalID
 //@   ensures result == nil ==> boxed(cast(new, "*ir.TermCatchRet").Target) == old(fgen.locals[localIdent(old.Target().Name())])
 //@   ensures !old(mapdom(fgen.locals, localIdent(old.Target().Name()))) ==> result != nil
-//@ # operands translated inside loops or conditionals are not covered (number of such call sites): irGetElementPtrInst (1), irCallInst (1), irIndirectBrTerm (1), irInvokeTerm (1), irCallBrTerm (2)
-//@ # no operand of the recognised shapes: irFenceInst, irPhiInst, irLandingPadInst, irCatchPadInst, irCleanupPadInst, irCatchSwitchTerm, irCleanupRetTerm, irUnreachableTerm
+//@ # operands translated inside loops or conditionals are not covered (number of such call sites): irGetElementPtrInst (1), irPhiInst (1), irCallInst (1), irIndirectBrTerm (1), irInvokeTerm (1), irCallBrTerm (2)
+//@ # no operand of the recognised shapes: irFenceInst, irLandingPadInst, irCatchPadInst, irCleanupPadInst, irCatchSwitchTerm, irCleanupRetTerm, irUnreachableTerm
 //@ # ==== generated by /verif/tools/gen_asm_operand_contracts.py: end ====
 
 //@ # ---------------------------------------------------------------- C04 (one scaffold object per indexed global identifier) ---
@@ -1332,6 +1388,7 @@ package asm
 //@   assigns mapof(gen.new.attrGroupDefs)
 //@   ensures forall(k int64, mapdom(gen.old.attrGroupDefs, k) ==> mapdom(gen.new.attrGroupDefs, k) && mapvalk(gen.new.attrGroupDefs, k) != nil && mapvalk(gen.new.attrGroupDefs, k).ID == k, pattern(mapdom(gen.old.attrGroupDefs, k)))
 //@   loop 0: invariant forall(k int64, visited(k) ==> mapdom(gen.new.attrGroupDefs, k) && mapvalk(gen.new.attrGroupDefs, k) != nil && mapvalk(gen.new.attrGroupDefs, k).ID == k, pattern(mapdom(gen.old.attrGroupDefs, k)))
+
 
 
 
@@ -1656,14 +1713,16 @@ package asm
 //@ # ==== generated by /verif/tools/gen_asm_type_contracts.py: end ====
 
 //@ # ---------------------------------------------------------------- C08 (parser-side numbering of globals) ---
-//@ # giveUnnamedIdentID: an unnamed identifier takes the next number and advances the counter; a named one
+//@ # giveUnnamedIdentID: an unnamed identifier must carry the next number and advances the counter; a named one
 //@ # is returned as it is and leaves the counter alone.
+//@ # (C05: an unnamed identifier written with a number other than the next one -- e.g. a repeated @0 -- is an error)
 //@ func giveUnnamedIdentID
-//@   props C08
-//@   requires id != nil
+//@   props C08 C05
+//@   requires id != nil && deref(id) >= 0 && ident.GlobalID >= 0
 //@   assigns deref(id)
-//@   ensures len(ident.GlobalName) == 0 ==> result.GlobalID == old(deref(id)) && deref(id) == old(deref(id)) + 1 && len(result.GlobalName) == 0
-//@   ensures len(ident.GlobalName) != 0 ==> result == ident && deref(id) == old(deref(id))
+//@   ensures len(ident.GlobalName) == 0 && ident.GlobalID == old(deref(id)) ==> result1 == nil && result0 == ident && deref(id) == old(deref(id)) + 1
+//@   ensures len(ident.GlobalName) == 0 && ident.GlobalID != old(deref(id)) ==> result1 != nil && deref(id) == old(deref(id))
+//@   ensures len(ident.GlobalName) != 0 ==> result1 == nil && result0 == ident && deref(id) == old(deref(id))
 
 //@ # ==== generated by /verif/tools/gen_order_contracts.py: begin ====
 //@ # ---------------------------------------------------------------- C20 (textual order of globals) ---
